@@ -21,6 +21,20 @@ CHECKS = {
         design_ref="§6 C09",
         technique="Lean 4 refinement proof (invariant + abstraction function, induction over histories) + exhaustive differential correspondence model/impl",
     ),
+    "C14": dict(
+        engine="text",
+        category="proof",
+        text=("Theorems for all texts and offsets (induction over the text): Position.line_col equals the specification "
+              "(1 + number of line breaks before p, 1 + distance from the last line break) on \\n-texts (line_col_spec), the "
+              "specification is injective (line_col_injective), Span.lines returns exactly the lines the closed span touches "
+              "(span_lines_spec, span_lines_touch), line_of returns the line containing p (line_of_spec), str(span) = text[a:b], "
+              "and none of them raises for any text over Python's full line-separator set. The Lean model mirrors the Python "
+              "statement by statement (splitlines(keepends=True) included) and is tied to src/pest/pairs.py by an exhaustive "
+              "correspondence run (all texts over {a,b,\\n} to length 7/9 x all offsets and spans, plus texts with the other "
+              "separators and random long texts); the same run evaluates the property's formula directly on the real code."),
+        design_ref="§6 C14",
+        technique="Lean 4 proof by induction over the text (model = spec) + exhaustive differential correspondence model/impl",
+    ),
 }
 
 NOT_YET = "check not built yet in this snapshot of /verif (work in progress; see DESIGN.md §9.1 for the order of work)"
@@ -57,6 +71,8 @@ manifest = {
     "engines": [
         {"name": "stack", "path": "harness/eng_stack.py", "serves_properties": ["C09"],
          "kind_free_text": "Lean model lean/PestModel/{Stack,State}.lean + proofs Props/C09.lean; exhaustive + random histories, three-way comparison impl / full-copy reference / Lean model"},
+        {"name": "text", "path": "harness/eng_text.py", "serves_properties": ["C14"],
+         "kind_free_text": "Lean model lean/PestModel/LineCol.lean + proofs Props/C14.lean; exhaustive small texts x offsets, three-way comparison impl / formula / Lean model"},
     ],
     "checks": checks,
     "not_applicable": na,
